@@ -11,7 +11,8 @@ LO, HI = 21, 108
 MIN_NONTRIVIAL = 0.5
 RULE = ("Hypothesis: well-formed sequences (pitches biased to both range ends 21..32 / 97..108, middle, and optionally outside the "
         "range), with/without key-signature events (all 15 keys), optionally wrapped in a Bar with a key; intervals from "
-        "{0,+-1,+-5,+-7,+-12,+-24,+-88,+-100,+-127, random -200..200}. Oracle: independent wrap model (repeated +-12 into "
+        "{0,+-1,+-5,+-7,+-12,+-24,+-88,+-100,+-127, random -200..200}; a quarter of the plain-sequence cases is a history on one object (transpose, then concatenate more "
+        "notes or edit pitches in place, then the transposition under test). Oracle: independent wrap model (repeated +-12 into "
         "[21,108]); flag == any note wrapped; every output pitch in range and the image of an input pitch of its channel; "
         "no wrap => exact shift with onsets/durations/velocities untouched and transpose(-n) restores; key events / bar "
         "key never None and tonic shifted by n mod 12. Non-trivial: interval != +-1, or a key signature present, or a note "
